@@ -1607,6 +1607,12 @@ func c09DataRootReturns(c *rt.Ctx, fn *ssa.Function, rootP *ssa.Parameter, domM 
 			ce = st.CallEvent(call)
 		}
 		if ce == nil {
+			if isMemo, sound := c09SoundMemoRead(st, fn, vals[0]); isMemo && sound {
+				// a memo hit: the value is the one a computing path (decided here) stored under a key that covers
+				// every input it was computed from (decided by G7)
+				acc.good(construct+" ObjectRoot", ret, "memo of the computed root, keyed by all its inputs (G7)")
+				return
+			}
 			if d, opaque := c09Describe(st, vals[0]); !opaque {
 				acc.bad(construct+" ObjectRoot", ret, "the root returned with a nil error is not phase0.SigningData.HashTreeRoot(): "+d)
 			} else {
@@ -1701,6 +1707,10 @@ func c09DataRootReturns(c *rt.Ctx, fn *ssa.Function, rootP *ssa.Parameter, domM 
 			} else {
 				acc.bad(construct+" Domain error checked", ret, "GetDomain's error is not checked: the domain is used on a path on which the error was non-nil or not tested")
 			}
+		} else if isMemo, sound, holds := c09SoundMemoOf(st, fn, dm); isMemo && sound && domM(&ssa.CallCommon{Value: c09FnByName(fn, holds)}) {
+			// a memo of GetDomain's checked results, keyed by every input they were computed from (G7)
+			acc.good(construct+" Domain", ret, "memo of the domain returned by GetDomain (G7)")
+			acc.good(construct+" Domain error checked", ret, "")
 		} else if d, opaque := c09Describe(st, dm); opaque {
 			acc.unsure(construct+" Domain", ret, "cannot follow Domain back to GetDomain")
 		} else {
@@ -1713,6 +1723,18 @@ func c09DataRootReturns(c *rt.Ctx, fn *ssa.Function, rootP *ssa.Parameter, domM 
 	if n == 0 && res.Complete {
 		c.Bail("GetDataRoot has no success return")
 	}
+}
+
+// c09FnByName: the function of fn's package with the given short name (nil when there is none).
+func c09FnByName(fn *ssa.Function, name string) ssa.Value {
+	if fn.Pkg != nil {
+		for _, m := range fn.Pkg.Members {
+			if f, ok := m.(*ssa.Function); ok && an.FuncName(f) == name {
+				return f
+			}
+		}
+	}
+	return nil
 }
 
 func init() {
